@@ -35,11 +35,13 @@ Inductive wpret :=
 | WPErr
 | WPVal (v : wcv) (s : option wstr).
 
-(* observation: error class, or (unsanitised tree, ToStringMap(), string-field decodes of top-level
-   keys: None = Unmarshal returned an error) *)
+(* observation: error class, or (unsanitised tree, ToStringMap(), decodes of every top-level key into
+   a field of type string / int / []string / map[string]string: None = Unmarshal returned an error) *)
+Definition wdec : Type :=
+  wstr * option wstr * option Z * option (list wstr) * option (list (wstr * wstr)).
 Inductive wobs :=
 | WObsErr (class : nat)
-| WObsOk (tree : wcv) (tsm : wcv) (dec : list (wstr * option wstr)).
+| WObsOk (tree : wcv) (tsm : wcv) (dec : list wdec).
 
 (* configuration: default scheme, registered schemes, provider table keyed by "scheme:opaque" *)
 Definition wcfg : Type := wstr * list wstr * list (wstr * wpret).
@@ -125,6 +127,20 @@ Definition top_lookup (k : str) (t : cv) : cv :=
   | _ => CNil
   end.
 
+Definition strmap_cv (m : list (str * str)) : cv := CMap (map (fun kv => (fst kv, CStr (snd kv))) m).
+
+Definition check_dec (t : cv) (d : wdec) : bool :=
+  let '(k, ds, di, dl, dm) := d in
+  let v := top_lookup (s2l k) t in
+  option_eqb str_eqb (decode_string_field v) (option_map s2l ds)
+  && match decode_int_field v with
+     | None => true                      (* float64 -> int truncation: not modelled *)
+     | Some mi => option_eqb Z.eqb mi di
+     end
+  && option_eqb (list_eqb str_eqb) (decode_strlist_field v) (option_map (map s2l) dl)
+  && option_eqb cv_eqb (option_map (fun m => canon (strmap_cv m)) (decode_strmap_field v))
+                (option_map (fun m => canon (strmap_cv (map (fun kv => (s2l (fst kv), s2l (snd kv))) m))) dm).
+
 Definition check_case (c : wcase) : bool :=
   let '(cfg, srcs, obs) := c in
   match run_model cfg srcs, obs with
@@ -132,9 +148,7 @@ Definition check_case (c : wcase) : bool :=
   | Ok t, WObsOk tree tsm dec =>
       cv_eqb (canon t) (canon (of_w tree))
       && cv_eqb (canon (sanitize t)) (canon (of_w tsm))
-      && forallb (fun kd : wstr * option wstr =>
-                    option_eqb str_eqb (decode_string_field (top_lookup (s2l (fst kd)) t))
-                               (option_map s2l (snd kd))) dec
+      && forallb (check_dec t) dec
   | _, _ => false
   end.
 
